@@ -76,14 +76,29 @@ def main(p):
     def write(self, bo):
         real_write(self, bo)
         snap(self.file_obj)
-    with mock.patch.object(fio.FileWriter, "cwrite", cwrite), mock.patch.object(fio.FileWriter, "write", write):
+    finals = {}
+    real_cleanup = tempfile.TemporaryDirectory.cleanup
+
+    def cleanup(self):
+        # the files as they are on disk when the producing call has returned (before the scratch directory goes away)
+        for name in list(snaps):
+            try:
+                if os.path.exists(name):
+                    finals[name] = open(name, "rb").read()
+            except OSError:
+                pass
+        return real_cleanup(self)
+    with mock.patch.object(fio.FileWriter, "cwrite", cwrite), mock.patch.object(fio.FileWriter, "write", write), \
+            mock.patch.object(tempfile.TemporaryDirectory, "cleanup", cleanup):
         q = dict(p)
         q.pop("check", None)
-        keep = tempfile.mkdtemp()
         out, bad = c07.run(q)
     bad = [b for b in bad if "raised" in b] + late[:2]
     for name, ss in snaps.items():
-        final = ss[-1]
+        final = finals.get(name, ss[-1])
+        if name in finals and finals[name] != ss[-1]:
+            bad.append(f"{os.path.basename(name)}: the file was modified after its last write through the writer "
+                       f"({'header bytes changed' if finals[name][:len(ss[0])] != ss[0] else 'data changed'}): what was on disk between writes is not what the call left")
         try:
             h, hl, _ = c07.parse(name) if os.path.exists(name) else (None, None, None)
         except Exception:  # noqa: BLE001
